@@ -22,6 +22,9 @@ type SolveResult struct {
 	All     map[string]string `json:"all_solvers,omitempty"`
 }
 
+// crossCheckAll (thorough tier): every solver runs to its own answer or time limit on every obligation.
+var crossCheckAll bool
+
 type solverDef struct {
 	name string
 	kind string // z3old, z3new, cvc5
@@ -32,12 +35,14 @@ var solvers = []solverDef{
 	{"z3-4.8.12", "z3old", func(f string, t int) []string { return []string{"/usr/bin/z3", fmt.Sprintf("-T:%d", t), f} }},
 	{"z3-5.1.0", "z3new", func(f string, t int) []string { return []string{"z3-new", fmt.Sprintf("-T:%d", t), f} }},
 	{"cvc5-1.0", "cvc5", func(f string, t int) []string {
-		return []string{"cvc5", "--strings-exp", fmt.Sprintf("--tlimit=%d", t*1000), "--produce-models", f}
+		// --no-strings-regexp-inclusion: cvc5 1.0.3 answers "unsat" for  x in [\0-\xff]* and not x in [a-z]*
+		// (its regular-expression inclusion test is unsound); found when z3 and cvc5 disagreed on a C18 obligation
+		return []string{"cvc5", "--strings-exp", "--no-strings-regexp-inclusion", fmt.Sprintf("--tlimit=%d", t*1000), "--produce-models", f}
 	}},
 	// the same solver with enumerative quantifier instantiation: finds the witness of
 	// exists-over-list obligations that E-matching alone misses
 	{"cvc5-1.0 --enum-inst", "cvc5", func(f string, t int) []string {
-		return []string{"cvc5", "--strings-exp", "--enum-inst", fmt.Sprintf("--tlimit=%d", t*1000), "--produce-models", f}
+		return []string{"cvc5", "--strings-exp", "--no-strings-regexp-inclusion", "--enum-inst", fmt.Sprintf("--tlimit=%d", t*1000), "--produce-models", f}
 	}},
 }
 
@@ -98,10 +103,40 @@ func solve(o *Obligation, dir string, timeout int) *SolveResult {
 	}
 	t0 := time.Now()
 	var errs []string
-	for i := 0; i < len(solvers); i++ {
-		a := <-ch
+	decided := false
+	var grace <-chan time.Time
+	finish := func() *SolveResult {
+		cancel()
+		return res
+	}
+	for i := 0; i < len(solvers); {
+		var a ans
+		if grace != nil {
+			select {
+			case a = <-ch:
+			case <-grace:
+				return finish()
+			}
+		} else {
+			a = <-ch
+		}
+		i++
 		res.All[a.sd.name] = a.status
 		if a.status == "unsat" || a.status == "sat" {
+			if decided {
+				// a second definitive answer inside the grace period: it must agree with the first
+				first := "unsat"
+				if res.Status == "refuted" || res.Status == "cover-ok" {
+					first = "sat"
+				}
+				if a.status != first {
+					res.Status = "solver-disagreement"
+					res.Detail = fmt.Sprintf("%s answered %s, %s answered %s", res.Solver, first, a.sd.name, a.status)
+					return finish()
+				}
+				continue
+			}
+			decided = true
 			res.Solver = a.sd.name
 			res.Seconds = a.secs
 			res.File = files[a.sd.kind]
@@ -117,12 +152,21 @@ func solve(o *Obligation, dir string, timeout int) *SolveResult {
 					res.Status = "cover-ok"
 				}
 			}
-			cancel()
-			return res
+			// the other solvers get a short grace period (or, in the thorough tier, their full time) to
+			// contradict the answer: a disagreement is reported as BROKEN, never silently resolved
+			g := time.Duration(300+int(a.secs*1000)) * time.Millisecond
+			if crossCheckAll {
+				g = 20 * time.Second
+			}
+			grace = time.After(g)
+			continue
 		}
 		if a.status == "error" {
 			errs = append(errs, a.sd.name+": "+firstLines(a.out, 3))
 		}
+	}
+	if decided {
+		return finish()
 	}
 	res.Seconds = time.Since(t0).Seconds()
 	res.Status = "undecided"
